@@ -16,6 +16,7 @@ pub struct RelFlags {
     pub trailing_comma: bool,
     pub epochs: bool,
     pub max_entries: usize,
+    pub neg_archs: bool,
 }
 
 impl RelFlags {
@@ -28,10 +29,11 @@ impl RelFlags {
             trailing_comma: rng.chance(1, 4),
             epochs: rng.chance(1, 3),
             max_entries: 1 + rng.below(4),
+            neg_archs: rng.chance(1, 2),
         }
     }
     pub fn canonical() -> RelFlags {
-        RelFlags { free_ws: false, newlines: false, substvars: false, empty_entries: false, trailing_comma: false, epochs: true, max_entries: 3 }
+        RelFlags { free_ws: false, newlines: false, substvars: false, empty_entries: false, trailing_comma: false, epochs: true, max_entries: 3, neg_archs: false }
     }
 }
 
@@ -79,7 +81,7 @@ pub fn relation(rng: &mut Rng, f: &RelFlags) -> String {
         s.push_str(&ws(rng, f, " "));
         s.push('[');
         let n = 1 + rng.below(3);
-        let neg = rng.chance(1, 2);
+        let neg = f.neg_archs && rng.chance(1, 2);
         for i in 0..n {
             if i > 0 {
                 s.push(' ');
